@@ -7,6 +7,8 @@ fn prepare() {
         lv::engine::install_quiet_panic_hook();
         std::env::set_var("TZ", "<+0545>-5:45");
         std::env::set_var("LV_SET", "envdir");
+        std::env::set_var("LV_BRACES", "b{}r");
+        std::env::set_var("LV_SLASH", "bill/api");
     });
 }
 
